@@ -4,6 +4,12 @@ import GeoVerif.Proofs.Digits
 import GeoVerif.Proofs.GeohashBits
 import GeoVerif.Proofs.GeohashScale
 import GeoVerif.Proofs.GeorefLoop
+import GeoVerif.Proofs.OSGBInt
+import GeoVerif.Proofs.OSGBScale
+import GeoVerif.Proofs.GridHelpers
+import GeoVerif.Proofs.GeohashDecode
+import GeoVerif.Proofs.OSGBReverse
+import GeoVerif.Gen.OSGBC
 import GeoVerif.Props.C16
 /-!
 # C18 — property theorems (grid codes), integer level
@@ -1332,6 +1338,523 @@ theorem geohash_cell_contains (lat lon : F64) (h1 : F64.gt (F64.abs lat) MathF.q
     rw [this]
 
 end GeohashCell
+
+/-! ### Georef: prefix law across all precisions -/
+
+/-- **prefix law, Georef, tiles → degrees → minutes**: the 2-letter code is a prefix of the 4-letter code, which is a
+prefix of every finer code (all cells) -/
+theorem georef_prefix_coarse (X Y : ℤ) (p : ℤ) (hp : 0 ≤ p) :
+    Georef.encodeInt X Y (-1) <+: Georef.encodeInt X Y 0 ∧ Georef.encodeInt X Y 0 <+: Georef.encodeInt X Y p := by
+  constructor
+  · unfold Georef.encodeInt
+    simp only [show ((-1:ℤ) < 0) from by norm_num, if_true, show ¬ ((0:ℤ) < 0) from by norm_num, if_false]
+    exact List.prefix_append _ _
+  · unfold Georef.encodeInt
+    have h0 : ¬ (p < 0) := by omega
+    simp only [show ¬ ((0:ℤ) < 0) from by norm_num, if_false, if_true, h0]
+    by_cases hz : p = 0
+    · simp [hz]
+    · simp only [hz, if_false]
+      rw [List.append_assoc, List.append_assoc]
+      exact List.prefix_append _ _
+
+/-- **prefix law, Georef, minutes and decimals** (`2 ≤ p`, `p + 1 ≤ 11`, every cell): tile, degree letters and easting
+digits at precision `p` are a prefix of the code at `p + 1`; the northing digits are a prefix of the finer northing digits -/
+theorem georef_prefix (X Y : ℤ) (p : ℕ) (hp2 : 2 ≤ p) (hp : p + 1 ≤ 11) :
+    (Georef.encodeInt X Y p).take (4 + p) <+: Georef.encodeInt X Y (p + 1 : ℕ) ∧
+    (Georef.encodeInt X Y p).drop (4 + p) <+: (Georef.encodeInt X Y (p + 1 : ℕ)).drop (4 + (p + 1)) := by
+  have hm : Georef.m = 60000000000 := rfl
+  have a1 : ¬ ((p:ℤ) < 0) := by omega
+  have a2 : ¬ ((p:ℤ) = 0) := by omega
+  have b1 : ¬ (((p + 1 : ℕ):ℤ) < 0) := by omega
+  have b2 : ¬ (((p + 1 : ℕ):ℤ) = 0) := by omega
+  unfold Georef.encodeInt
+  simp only [a1, a2, b1, b2, if_false, hm, georef_tile, georef_base, georef_maxprec, Int.toNat_natCast]
+  set ilon := X / 60000000000
+  set ilat := Y / 60000000000
+  have hd : ((11:ℤ) - (p:ℤ)).toNat = (11 - (p + 1)) + 1 := by omega
+  have hd' : ((11:ℤ) - ((p + 1 : ℕ):ℤ)).toNat = 11 - (p + 1) := by omega
+  rw [hd, hd']
+  set D : ℤ := 10 ^ (11 - (p + 1)) with hD
+  have hDpos : 0 < D := by positivity
+  have hpow : (10:ℤ) ^ (11 - (p + 1) + 1) = D * 10 := by rw [pow_succ]
+  rw [hpow]
+  have key : ∀ a : ℤ, (a / (D * 10)).toNat = (a / D).toNat / 10 := by
+    intro a
+    rw [← Int.ediv_ediv_of_nonneg (le_of_lt hDpos)]
+    generalize a / D = q
+    rcases lt_or_ge q 0 with h | h
+    · have h1 : q / 10 < 0 := Int.ediv_neg_of_neg_of_pos h (by norm_num)
+      rw [Int.toNat_of_nonpos (le_of_lt h1), Int.toNat_of_nonpos (le_of_lt h)]
+    · obtain ⟨k, rfl⟩ := Int.eq_ofNat_of_zero_le h
+      norm_cast
+  rw [key, key]
+  have ht10 : Int.toNat 10 = 10 := rfl
+  rw [ht10]
+  set xq := ((X - 60000000000 * ilon) / D).toNat
+  set yq := ((Y - 60000000000 * ilat) / D).toNat
+  have hform : ∀ l : List Char, [chr Georef.lontile (ilon / 15).toNat, chr Georef.lattile (ilat / 15).toNat] ++
+      [chr Georef.degrees (ilon % 15).toNat, chr Georef.degrees (ilat % 15).toNat] ++ l =
+      [chr Georef.lontile (ilon / 15).toNat, chr Georef.lattile (ilat / 15).toNat,
+       chr Georef.degrees (ilon % 15).toNat, chr Georef.degrees (ilat % 15).toNat] ++ l := fun _ => rfl
+  simp only [hform]
+  set hd4 := [chr Georef.lontile (ilon / 15).toNat, chr Georef.lattile (ilat / 15).toNat,
+       chr Georef.degrees (ilon % 15).toNat, chr Georef.degrees (ilat % 15).toNat] with hhd4
+  have l4 : hd4.length = 4 := rfl
+  have lx : (digitsW Georef.digits 10 p (xq / 10)).length = p := Digits.digitsW_length _ _ _ _
+  have lx1 : (digitsW Georef.digits 10 (p + 1) xq).length = p + 1 := Digits.digitsW_length _ _ _ _
+  have e1 : (hd4 ++ digitsW Georef.digits 10 p (xq / 10) ++ digitsW Georef.digits 10 p (yq / 10)).take (4 + p)
+      = hd4 ++ digitsW Georef.digits 10 p (xq / 10) := by
+    rw [List.take_append_of_le_length (by simp [l4, lx]), List.take_of_length_le (by simp [l4, lx])]
+  have e2 : (hd4 ++ digitsW Georef.digits 10 p (xq / 10) ++ digitsW Georef.digits 10 p (yq / 10)).drop (4 + p)
+      = digitsW Georef.digits 10 p (yq / 10) := by
+    rw [List.drop_append_of_le_length (by simp [l4, lx]), List.drop_of_length_le (by simp [l4, lx]), List.nil_append]
+  have e3 : (hd4 ++ digitsW Georef.digits 10 (p + 1) xq ++ digitsW Georef.digits 10 (p + 1) yq).drop (4 + (p + 1))
+      = digitsW Georef.digits 10 (p + 1) yq := by
+    rw [List.drop_append_of_le_length (by simp [l4, lx1]), List.drop_of_length_le (by simp [l4, lx1]), List.nil_append]
+  rw [e1, e2, e3]
+  refine ⟨?_, Digits.digitsW_prefix _ _ _ _⟩
+  rw [List.append_assoc]
+  refine (List.prefix_append_right_inj _).mpr ?_
+  exact (Digits.digitsW_prefix Georef.digits 10 p xq).trans (List.prefix_append _ _)
+
+example : String.ofList (Georef.encodeInt (183 * 60000000000 + 12345678901) (95 * 60000000000 + 7) 3) = "NGDF123000" ∧
+    String.ofList (Georef.encodeInt (183 * 60000000000 + 12345678901) (95 * 60000000000 + 7) 4) = "NGDF12340000" := by decide +kernel
+
+/-! ### resolution / precision helper functions; values returned by the decoders (`centerp` arithmetic) -/
+section Helpers
+open GridHelpers F64
+
+/-- `Geohash::LatitudeResolution / LongitudeResolution`: `180/2^⌊5c/2⌋`, `360/2^⌈5c/2⌉`, `c` = length clamped to `[0, 18]`; exact -/
+theorem geohash_resolution_val (len : ℤ) :
+    (Geohash.latRes len).val = 180 / (2:ℚ) ^ (5 * Geohash.clampLen len / 2) ∧
+    (Geohash.lonRes len).val = 360 / (2:ℚ) ^ (5 * Geohash.clampLen len - 5 * Geohash.clampLen len / 2) :=
+  geohash_res_val len
+/-- both resolutions are non-increasing in the length (all integers, clamping included) -/
+theorem geohash_resolution_antitone (a b : ℤ) (h : a ≤ b) :
+    (Geohash.latRes b).val ≤ (Geohash.latRes a).val ∧ (Geohash.lonRes b).val ≤ (Geohash.lonRes a).val :=
+  geohash_res_antitone a b h
+/-- the resolutions are the extents of the cells of `geohash_cell_contains` -/
+theorem geohash_resolution_is_cell (len : ℕ) (h : len ≤ 18) :
+    (Geohash.lonRes len).val = (2:ℚ) ^ (46 - (5 * len + 1) / 2) * (180 / (2:ℚ) ^ (45:ℕ)) ∧
+    (Geohash.latRes len).val = (2:ℚ) ^ (46 - 5 * len / 2) * (90 / (2:ℚ) ^ (45:ℕ)) :=
+  geohash_res_is_cell len h
+/-- **`GeohashLength(res)` is the least length whose longitude resolution is `≤ |res|`**, 18 if there is none below 18
+(every `res`, including NaN, ±∞, 0) -/
+theorem geohash_length_is_least (res : F64) :
+    let L := Geohash.lengthFor res
+    0 ≤ L ∧ L ≤ 18 ∧ (L < 18 → F64.le (Geohash.lonRes L) (F64.abs res) = true) ∧
+    ∀ l : ℕ, (l : ℤ) < L → F64.le (Geohash.lonRes l) (F64.abs res) = false :=
+  geohash_length_least res
+/-- `GeohashLength(LongitudeResolution(l)) = l` and `GeohashLength(LatitudeResolution(l), LongitudeResolution(l)) = l`, `l = 0..18` -/
+theorem geohash_length_of_resolution : ∀ l : Fin 19,
+    Geohash.lengthFor (Geohash.lonRes (l.val : ℤ)) = l.val ∧
+    Geohash.lengthFor2 (Geohash.latRes (l.val : ℤ)) (Geohash.lonRes (l.val : ℤ)) = l.val :=
+  geohash_length_of_res
+/-- `DecimalPrecision(len) = −⌊log₁₀(180/2^⌊5·len/2⌋)⌋`, in integers, `len = 0..18` -/
+theorem geohash_decimal_precision : ∀ l : Fin 19,
+    let d := Geohash.decimalPrecision (l.val : ℤ)
+    let k := 5 * l.val / 2
+    (if 0 ≤ d then 2 ^ k ≤ 180 * 10 ^ d.toNat else 2 ^ k * 10 ^ (-d).toNat ≤ 180) ∧
+    (if 1 ≤ d then 180 * 10 ^ (d - 1).toNat < 2 ^ k else 180 < 2 ^ k * 10 ^ (1 - d).toNat) :=
+  geohash_decimal_precision_spec
+
+/-- `GARS::Resolution`: `1/2`, `1/4` exactly; `1/12` correctly rounded -/
+theorem gars_resolution (prec : ℤ) :
+    (prec ≤ 0 → (GARS.resolution prec).val = 1 / 2) ∧ (prec = 1 → (GARS.resolution prec).val = 1 / 4) ∧
+    (2 ≤ prec → IsRN 53 (-1074) (1 / 12) (GARS.resolution prec).val) :=
+  gars_resolution_val prec
+/-- `GARS::Precision(res)` is the least precision whose resolution is `≤ |res|`, 2 if neither 0 nor 1 is -/
+theorem gars_precision_is_least (res : F64) :
+    let P := GARS.precision res
+    0 ≤ P ∧ P ≤ 2 ∧ (P < 2 → F64.le (GARS.resolution P) (F64.abs res) = true) ∧
+    ∀ q : ℕ, (q : ℤ) < P → F64.le (GARS.resolution q) (F64.abs res) = false :=
+  gars_precision_least res
+theorem gars_precision_resolution (p : ℤ) : GARS.precision (GARS.resolution p) = max 0 (min 2 p) :=
+  gars_precision_of_resolution p
+
+/-- `Georef::Resolution`: 15, 1, or the correctly rounded `1/(60·10^(c−2))`, `c` = `prec` clamped to `[2, 11]` -/
+theorem georef_resolution (prec : ℤ) :
+    (prec < 0 → (Georef.resolution prec).val = 15) ∧ (prec = 0 → (Georef.resolution prec).val = 1) ∧
+    (1 ≤ prec → IsRN 53 (-1074) (1 / (60 * 10 ^ ((max 2 (min 11 prec)) - 2).toNat)) (Georef.resolution prec).val) :=
+  georef_resolution_val prec
+theorem georef_precision_resolution : ∀ p : Fin 12, p.val ≠ 1 →
+    Georef.precision (Georef.resolution (p.val : ℤ)) = p.val :=
+  georef_precision_of_resolution
+/-- `Georef::Precision` is in `[0, 11]` and never 1 (so never −1 either) -/
+theorem georef_precision_in_range (res : F64) :
+    0 ≤ Georef.precision res ∧ Georef.precision res ≤ 11 ∧ Georef.precision res ≠ 1 :=
+  georef_precision_range res
+
+/-- **`GARS::Reverse` value** (`lat1/unit`, both `centerp`): one binary64 division — the correctly rounded rational; exact
+for `unit ∈ {2, 4, 8}`, i.e. precisions 0 and 1, corner and centre (at precision 2, `unit` 12 or 24, thirds appear) -/
+theorem gars_reverse_val (lat1 unit : ℤ) (hl : |lat1| ≤ 2 ^ 40) (hu : 0 < unit ∧ unit ≤ 24) :
+    ∃ r : ℚ, IsRN 53 (-1074) ((lat1:ℚ) / unit) r ∧ HasVal (F64.ofInt lat1 / F64.ofInt unit) r ∧
+      ((unit = 2 ∨ unit = 4 ∨ unit = 8) → r = (lat1:ℚ) / unit) :=
+  gars_reverse_value lat1 unit hl hu
+/-- **`Georef::Reverse` value** (`(15·lat1)/unit`): the correctly rounded rational; exact for tiles (`unit` 1, 2) and
+degree cells (`unit` 15, 30), corner and centre; from the minutes on (`unit = 15·6·10^(p−2)·(1|2)`) one rounding -/
+theorem georef_reverse_val (lat1 unit : ℤ) (hl : |lat1| ≤ 2 ^ 47) (hu : 0 < unit) :
+    ∃ r : ℚ, IsRN 53 (-1074) ((15 * lat1 : ℤ) / (unit:ℚ)) r ∧ HasVal (F64.ofInt (15 * lat1) / F64.ofInt unit) r ∧
+      ((unit = 1 ∨ unit = 2 ∨ unit = 15 ∨ unit = 30) → r = (15 * lat1 : ℤ) / (unit:ℚ)) :=
+  georef_reverse_value lat1 unit hl hu
+
+/-- every string `Geohash::Reverse` accepts: `len = min 18 |s|`, `ulon < 2^⌈5·len/2⌉`, `ulat < 2^⌊5·len/2⌋` -/
+theorem geohash_decode_bounds (s : List ℕ) (d : Geohash.Dec) (h : Geohash.decodeInt s = .ok d) :
+    d.len = min 18 s.length ∧ d.ulon < 2 ^ ((5 * d.len + 1) / 2) ∧ d.ulat < 2 ^ (5 * d.len / 2) :=
+  GeohashDecode.decodeInt_bounds s d h
+/-- **`Geohash::Reverse` is exact** for every accepted string, every length, centre and south-west corner: the half-cell
+offset is one more bit of the integer, the product by `180/2^45` (`90/2^45`) and the subtraction involve no rounding -/
+theorem geohash_reverse_exact (s : List ℕ) (cp : Bool) (d : Geohash.Dec) (h : Geohash.decodeInt s = .ok d)
+    (hinv : Geohash.isInvalid s = false) :
+    ∃ lat lon : F64, Geohash.reverse s cp = .ok (.val lat lon d.len) ∧
+      HasVal lon ((((2 * d.ulon + (if cp then 1 else 0)) <<< (5 * (18 - d.len) / 2) : ℕ) : ℚ) * (180 / (2:ℚ) ^ (45:ℕ)) - 180) ∧
+      HasVal lat ((((2 * d.ulat + (if cp then 1 else 0)) <<< (5 * (18 - d.len) - 5 * (18 - d.len) / 2) : ℕ) : ℚ) * (90 / (2:ℚ) ^ (45:ℕ)) - 90) :=
+  GeohashDecode.reverse_exact s cp d h hinv
+/-- **`geohash_accept_iff`**: accepted ⇔ each of the first 18 characters is in the base-32 alphabet (either case) -/
+theorem geohash_accept_iff (s : List ℕ) :
+    (∃ d, Geohash.decodeInt s = .ok d) ↔ ∀ c ∈ s.take 18, (lookup Geohash.uc c).isSome = true :=
+  GeohashDecode.accept_iff s
+
+/-! non-vacuity -/
+example : F64.le (Geohash.lonRes 7) (F64.abs (F64.fin true 1 (-9))) = true ∧ Geohash.lengthFor (F64.fin true 1 (-9)) = 7 := by
+  decide +kernel
+example : Geohash.isInvalid (toBytes "ezs42".toList) = false ∧
+    (match Geohash.decodeInt (toBytes "ezs42".toList) with | .ok d => decide (d.len = 5) | .error _ => false) = true := by decide +kernel
+example : GARS.precision (F64.fin false 1 (-2)) = 1 ∧ Georef.precision (F64.fin false 1 (-10)) = 4 := by decide +kernel
+
+end Helpers
+
+/-! ### OSGB grid references: the integer codec (all inputs), the floating part (all inputs), constants of the projection -/
+section OSGB
+open OSGBInt OSGBScale F64
+
+/-- **`decode∘encode`, OSGB** (every 100 km square of the grid, every pair of digit indices, every precision `≤ 11`):
+the decoder returns the square, the precision and the `p` decimal digits of the combined in-tile indices
+`i1·10^(p−5) + i2` (`OSGBInt.cellIndex`; their value is `osgb_decoded_value`) -/
+theorem osgb_decode_encode (sx sy : OSGB.Sc) (p : ℕ) (hp : p ≤ 11) (hx : -10 ≤ sx.h ∧ sx.h < 15) (hy : -5 ≤ sy.h ∧ sy.h < 20)
+    (h2x : sx.i2.toNat < 10 ^ (p - 5)) (h2y : sy.i2.toNat < 10 ^ (p - 5)) :
+    OSGB.decodeInt (toBytes (OSGB.encodeInt sx sy p)) =
+      .ok ⟨sx.h, sy.h, natDigits p (cellIndex sx p), natDigits p (cellIndex sy p), p⟩ := by
+  rw [encodeInt_eq_cell sx sy p h2x h2y]
+  exact decode_encodeCell sx.h sy.h _ _ p hp hx hy
+
+/-- the decoded digit list has the value of the index modulo `10^p` (so: the index itself when it is `< 10^p`) -/
+theorem osgb_decoded_value (p X : ℕ) : digitsVal (natDigits p X) = X % 10 ^ p := digitsVal_natDigits p X
+
+/-- **prefix law, OSGB** (integer level, every square and precision): letters + easting digits of the parent square's
+reference are a prefix of the finer reference; its northing digits are a prefix of the finer northing digits -/
+theorem osgb_prefix (xh yh : ℤ) (X Y p : ℕ) :
+    (encodeCell xh yh (X / 10) (Y / 10) p).take (2 + p) <+: encodeCell xh yh X Y (p + 1) ∧
+    (encodeCell xh yh (X / 10) (Y / 10) p).drop (2 + p) <+: (encodeCell xh yh X Y (p + 1)).drop (2 + (p + 1)) :=
+  encodeCell_prefix xh yh X Y p
+
+/-- **re-encode law, OSGB** (integer level, every accepted string): the reference of the decoded square at the decoded
+precision is the input upper-cased with white space removed -/
+theorem osgb_reencode (s : List ℕ) (d : OSGB.Dec) (h : OSGB.decodeInt s = .ok d) :
+    toBytes (encodeCell d.xh d.yh (digitsVal d.xd) (digitsVal d.yd) d.prec) = (s.filter (fun c => !OSGB.isSpace c)).map upper :=
+  reencode s d h
+
+/-- the decoded square is one of the 25 × 25 squares of the grid and the precision is at most 11 -/
+theorem osgb_decoded_range (s : List ℕ) (d : OSGB.Dec) (h : OSGB.decodeInt s = .ok d) :
+    -10 ≤ d.xh ∧ d.xh < 15 ∧ -5 ≤ d.yh ∧ d.yh < 20 ∧ d.prec ≤ 11 ∧ d.xd.length = d.prec ∧ d.yd.length = d.prec := by
+  obtain ⟨i, j, hlen, hp, hi, hj, hxh, hyh, hx, hy⟩ := decodeInt_ok s d h
+  obtain ⟨_, i25, _⟩ := lookup_some_spec OSGB.letters _ i hi
+  obtain ⟨_, j25, _⟩ := lookup_some_spec OSGB.letters _ j hj
+  have l25 : OSGB.letters.length = 25 := by decide
+  rw [l25] at i25 j25
+  obtain ⟨a, b, c, e⟩ := letterStep_range i j i25 j25
+  obtain ⟨ex, _⟩ := readDigits_spec _ _ hx
+  obtain ⟨ey, _⟩ := readDigits_spec _ _ hy
+  have lx := congrArg List.length ex
+  have ly := congrArg List.length ey
+  rw [List.length_map, List.length_take, List.length_drop] at lx
+  rw [List.length_map, List.length_drop] at ly
+  rw [hxh, hyh]
+  exact ⟨a, b, c, e, hp, by omega, by omega⟩
+
+/-- **`osgb_accept_iff`**: `ReadGridReference` (after the "IN…" test) accepts exactly the strings that, with white space
+removed, have even length in `[2, 24]`, begin with two letters `A–Z` other than `I` (either case) and continue with decimal
+digits only; everything else is rejected with the library's exception -/
+theorem osgb_accept_iff (s : List ℕ) :
+    (∃ d, OSGB.decodeInt s = .ok d) ↔
+      (let g := s.filter (fun c => !OSGB.isSpace c)
+       2 ≤ g.length ∧ g.length ≤ 24 ∧ g.length % 2 = 0 ∧ isLetter (g.getD 0 0) = true ∧ isLetter (g.getD 1 0) = true ∧
+       ∀ c ∈ g.drop 2, isDigit c = true) :=
+  accept_iff s
+
+/-- `GridReference(string)`: "IN…" (either case) gives NaN; otherwise the outcome (exception or values, precision) is that
+of the integer decoder followed by the floating accumulation -/
+theorem osgb_reverse_shape (s : List ℕ) (cp : Bool) :
+    OSGB.reverse s cp =
+      if s.length ≥ 2 && upper (s.getD 0 0) = 73 && upper (s.getD 1 0) = 78 then .ok .nan
+      else match OSGB.decodeInt s with
+        | .error e => .error e
+        | .ok d => .ok (.val (OSGB.reverseVal d cp).1 (OSGB.reverseVal d cp).2 d.prec) := by
+  unfold OSGB.reverse
+  by_cases h : (s.length ≥ 2 && upper (s.getD 0 0) = 73 && upper (s.getD 1 0) = 78) = true
+  · simp only [h, if_true]; rfl
+  · simp only [h, Bool.false_eq_true, if_false]
+    cases OSGB.decodeInt s <;> rfl
+
+/-- **decoding is case-insensitive** (OSGB) -/
+theorem osgb_case_insensitive (s : List ℕ) : OSGB.decodeInt (s.map upper) = OSGB.decodeInt s := decodeInt_upper s
+
+/-- **`osgb_scale_spec`** — the floating part of `GridReference(x, y, prec)` for one coordinate, every finite
+`x = ±m·2^e` (`m < 2^53`, `−1074 ≤ e ≤ 0`), `|x| ≤ 10^7` m, every precision `p ≤ 11`; `n = ⌊x/10^5⌋` exactly.
+Either `n = −1` and the code is tile 0, digits 0 — the square adjoining the position — in exactly two circumstances:
+(class U) the quotient `x/10^5` underflows to `−0`, `|x| ≤ 10^5·2^(−1075)`; or `−2^(−37) ≤ x` and the sum `x + 10^5`
+rounds to the tile size, which the carry of the repaired code (finding F74) turns into the start of the next tile
+(theorem `osgb_offset_wrap`; a sliver of at most `2^(−37)` m, class F75).  Otherwise the tile index is exact and the
+computed in-tile offset `t' < 10^5` is
+
+* the exact offset `x − 10^5·n` (every tile but `−1`, and tile `−1` for `x ≤ −50 km`), or
+* only for `n = −1`, `−50 km < x < 0`: the correctly rounded sum `x + 10^5` (`IsRN`, error `≤ 2^(−37)` m) — class F75;
+
+and the digit indices are: for `p ≤ 5` exactly `i1 = ⌊t'/10^(5−p)⌋` (no rounding effect at all: `divFloor_nosliver`),
+for `p > 5` `i1 = ⌊t'⌋` exactly, the fractional part `t' − ⌊t'⌋` exactly, and `i2` from **one** rounded multiplication
+`frac·10^(p−5)` followed by `floor` — `CellRelQ`: the exact index, or the next one when the rounded product is that
+integer (class F2). -/
+theorem osgb_scale_spec (s : Bool) (m : ℕ) (e : ℤ) (hm : m < 2 ^ 53) (he1 : -1074 ≤ e) (he0 : e ≤ 0) (p : ℕ) (hp : p ≤ 11)
+    (hb : |(F64.fin s m e).val| ≤ 10 ^ 7) (n : ℤ)
+    (hn1 : (n:ℚ) ≤ (F64.fin s m e).val / 100000) (hn2 : (F64.fin s m e).val / 100000 < (n:ℚ) + 1) :
+    let x := F64.fin s m e
+    let sc := OSGB.scaleCoord x p
+    (n = -1 ∧ (-(x.val / 100000) ≤ (2:ℚ) ^ (-(1075:ℤ)) ∨
+        (-(2:ℚ) ^ (-(37:ℤ)) ≤ x.val ∧ IsRN 53 (-1074) (x.val + 100000) 100000)) ∧ sc = ⟨0, 0, 0⟩) ∨
+    (sc.h = n ∧ ∃ t' : ℚ, OffsetRel x.val n t' ∧ 0 ≤ t' ∧ t' < 100000 ∧
+      ∃ pv : ℚ, DigitRel t' p sc.i1 sc.i2 pv) :=
+  scaleCoord_spec s m e hm he1 he0 p hp hb n hn1 hn2
+
+/-- **the coded square is the square that contains the position** — down to 1 m (`p ≤ 5`), every tile except the part
+`−50 km < x < 0` of tile `−1` (which contains the rounded-offset and the two adjoining-square classes): tile index and
+digit index are the exact floors -/
+theorem osgb_contains_le5 (s : Bool) (m : ℕ) (e : ℤ) (hm : m < 2 ^ 53) (he1 : -1074 ≤ e) (he0 : e ≤ 0) (p : ℕ) (hp : p ≤ 5)
+    (hb : |(F64.fin s m e).val| ≤ 10 ^ 7) (n : ℤ)
+    (hn1 : (n:ℚ) ≤ (F64.fin s m e).val / 100000) (hn2 : (F64.fin s m e).val / 100000 < (n:ℚ) + 1)
+    (htile : n ≠ -1 ∨ (F64.fin s m e).val ≤ -50000) :
+    OSGB.scaleCoord (F64.fin s m e) p = ⟨n, ⌊((F64.fin s m e).val - 100000 * n) / 10 ^ (5 - p)⌋, 0⟩ := by
+  rcases scaleCoord_spec s m e hm he1 he0 p (by omega) hb n hn1 hn2 with ⟨hn, hU, _⟩ | ⟨hh, t', hrel, _, _, pv, hd, _⟩
+  · -- both adjoining-square classes need −50 km < x
+    exfalso
+    rcases htile with h | h
+    · exact h hn
+    · rcases hU with hU | ⟨h37, _⟩
+      · have hC : (2:ℚ) ^ (-(1075:ℤ)) < 1/4 := by
+          have h2 : (2:ℚ) ^ (-(1075:ℤ)) < (2:ℚ) ^ (-(2:ℤ)) := Dy.two_zpow_lt_iff.mpr (by norm_num)
+          have e2 : (2:ℚ) ^ (-(2:ℤ)) = 1/4 := by rw [zpow_neg]; norm_num
+          rw [e2] at h2; exact h2
+        have : (F64.fin s m e).val / 100000 ≤ -(1/2) := by
+          rw [div_le_iff₀ (by norm_num)]; linarith
+        linarith
+      · have h37' : (2:ℚ) ^ (-(37:ℤ)) < 1 := by
+          have : (2:ℚ) ^ (-(37:ℤ)) < (2:ℚ) ^ (0:ℤ) := Dy.two_zpow_lt_iff.mpr (by norm_num)
+          simpa using this
+        generalize (2:ℚ) ^ (-(37:ℤ)) = A at h37 h37'
+        linarith
+  · have ht : t' = (F64.fin s m e).val - 100000 * n := by
+      rcases hrel with ⟨h, _⟩ | ⟨h1, h2, _⟩
+      · exact h
+      · exfalso
+        rcases htile with h | h
+        · exact h h1
+        · linarith
+    obtain ⟨a, b⟩ := hd hp
+    rw [ht] at a
+    cases hsc : OSGB.scaleCoord (F64.fin s m e) p with
+    | mk h i1 i2 =>
+      rw [hsc] at hh a b
+      simp only [] at hh a b
+      rw [hh, a, b]
+
+/-- **what the repaired code does for `−2^(−37) ≤ x < 0`** (finding F74, fixed by f3f841a; every precision `≤ 11`): the
+result is tile `0`, all digit indices `0` — the square `[0, 10^(5−p))` m whose edge the position misses by at most
+`2^(−37)` m ≈ 7·10^(−12) m.  Two mechanisms lead there: the quotient `x/10^5` underflows to `−0` (tile 0 directly, negative
+offset clamped: sliver class F2/U), or tile `−1` is selected, `x + 10^5` rounds to the tile size and the new carry
+`if (xf >= tile_) { xf = 0; ++xh; }` moves the point to the start of the next tile (sliver class F75).  Before the repair the
+second mechanism produced tile `−1` with digits `0…0`, the square 100 km away; a regression no longer matches any
+known class. -/
+theorem osgb_offset_wrap (s : Bool) (m : ℕ) (e : ℤ) (hm : m < 2 ^ 53) (he1 : -1074 ≤ e) (he0 : e ≤ 0) (p : ℕ) (hp : p ≤ 11)
+    (h1 : -(2:ℚ) ^ (-(37:ℤ)) ≤ (F64.fin s m e).val) (h2 : (F64.fin s m e).val < 0) :
+    OSGB.scaleCoord (F64.fin s m e) p = ⟨0, 0, 0⟩ :=
+  scaleCoord_wrap s m e hm he1 he0 p hp h1 h2
+
+/-- `CheckCoords`: accepted ⇔ each coordinate is NaN or a finite number in the half-open documented range
+`[−1000 km, 1500 km) × [−500 km, 2000 km)` (limits from `Gen.Grid`); ±∞ is rejected -/
+theorem osgb_checkCoords_iff (x y : F64) :
+    OSGB.checkCoords x y = .ok () ↔
+      (x.isNaN = true ∨ (x.isFinite = true ∧ (osgb_minx : ℚ) ≤ x.val ∧ x.val < (osgb_maxx : ℚ))) ∧
+      (y.isNaN = true ∨ (y.isFinite = true ∧ (osgb_miny : ℚ) ≤ y.val ∧ y.val < (osgb_maxy : ℚ))) := by
+  have key : ∀ (a : F64) (lo hi : ℤ), (F64.lt a (F64.ofInt lo) || F64.ge a (F64.ofInt hi)) = false ↔
+      (a.isNaN = true ∨ (a.isFinite = true ∧ (lo:ℚ) ≤ a.val ∧ a.val < (hi:ℚ))) := by
+    intro a lo hi
+    cases a with
+    | nan => simp [F64.lt, F64.ge, F64.le, F64.ofInt, F64.ofDy, F64.isNaN]
+    | inf sgn => cases sgn <;> simp [F64.lt, F64.ge, F64.le, F64.ofInt, F64.ofDy, F64.isNaN, F64.isFinite]
+    | fin sa ma ea =>
+      have h1 := lt_of_hasVal (hasVal_fin sa ma ea) (hasVal_ofInt lo)
+      have h2 : F64.ge (F64.fin sa ma ea) (F64.ofInt hi) = true ↔ (hi:ℚ) ≤ (F64.fin sa ma ea).val := by
+        show Dy.le (F64.ofInt hi).toDy (F64.fin sa ma ea).toDy = true ↔ _
+        rw [Dy.le_iff]
+        show (F64.ofInt hi).val ≤ _ ↔ _
+        rw [(hasVal_ofInt hi).2]
+        exact Iff.rfl
+      simp only [F64.isNaN, F64.isFinite, Bool.false_eq_true, false_or, true_and, Bool.or_eq_false_iff]
+      constructor
+      · rintro ⟨a1, a2⟩
+        constructor
+        · by_contra hc
+          have := h1.mpr (not_le.mp hc)
+          rw [this] at a1; cases a1
+        · by_contra hc
+          have := h2.mpr (not_lt.mp hc)
+          rw [this] at a2; cases a2
+      · rintro ⟨a1, a2⟩
+        constructor
+        · rw [Bool.eq_false_iff]; intro hc; have := h1.mp hc; linarith
+        · rw [Bool.eq_false_iff]; intro hc; have := h2.mp hc; linarith
+  unfold OSGB.checkCoords
+  rw [← key x osgb_minx osgb_maxx, ← key y osgb_miny osgb_maxy]
+  cases hx : (F64.lt x (F64.ofInt osgb_minx) || F64.ge x (F64.ofInt osgb_maxx)) <;>
+  cases hy : (F64.lt y (F64.ofInt osgb_miny) || F64.ge y (F64.ofInt osgb_maxy)) <;>
+  simp [bind, Except.bind, throw, throwThe, MonadExceptOf.throw, pure, Except.pure]
+
+/-- the documented ranges -/
+theorem osgb_ranges : osgb_minx = -1000000 ∧ osgb_maxx = 1500000 ∧ osgb_miny = -500000 ∧ osgb_maxy = 2000000 ∧
+    osgb_tile = 100000 ∧ osgb_tilegrid = 5 ∧ osgb_tileoffx = 2 * osgb_tilegrid ∧ osgb_tileoffy = osgb_tilegrid ∧
+    osgb_maxprec = 11 ∧ osgb_base = 10 ∧ osgb_tilelevel = 5 := by decide
+
+/-- `GridReference(x, y, prec)` as a whole: range check, precision check `0 ≤ prec ≤ 11`, NaN ↦ "INVALID", otherwise the
+integer encoder applied to the floating parts of the two coordinates -/
+theorem osgb_gridReference_eq (x y : F64) (prec : ℤ) (hc : OSGB.checkCoords x y = .ok ()) :
+    OSGB.gridReference x y prec =
+      if ¬ (0 ≤ prec ∧ prec ≤ 11) then .error "prec"
+      else if x.isNaN || y.isNaN then .ok "INVALID".toList
+      else .ok (OSGB.encodeInt (OSGB.scaleCoord x prec.toNat) (OSGB.scaleCoord y prec.toNat) prec.toNat) := by
+  unfold OSGB.gridReference
+  have e11 : osgb_maxprec = 11 := rfl
+  rw [hc, e11]
+  by_cases hp : 0 ≤ prec ∧ prec ≤ 11
+  · by_cases hn : (x.isNaN || y.isNaN) = true
+    · simp [hp, hn, bind, Except.bind, pure, Except.pure]
+    · simp [hp, hn, bind, Except.bind, pure, Except.pure]
+  · simp [hp, bind, Except.bind, throw, throwThe, MonadExceptOf.throw]
+
+/-- **`ReadGridReference` is exact down to 1 m**: for every accepted string of precision `≤ 5`, the returned easting is
+exactly `10^5·xh + X·10^(5−p)` (south-west corner) resp. `+ 10^(5−p)/2` (centre), `X` the decoded digits; same for northing -/
+theorem osgb_reverse_exact_le5 (s : List ℕ) (d : OSGB.Dec) (h : OSGB.decodeInt s = .ok d) (hp : d.prec ≤ 5) (cp : Bool) :
+    HasVal (OSGB.reverseVal d cp).1 ((100000 * d.xh + digitsVal d.xd * 10 ^ (5 - d.prec) : ℤ) + (if cp then (10:ℚ) ^ (5 - d.prec) / 2 else 0)) ∧
+    HasVal (OSGB.reverseVal d cp).2 ((100000 * d.yh + digitsVal d.yd * 10 ^ (5 - d.prec) : ℤ) + (if cp then (10:ℚ) ^ (5 - d.prec) / 2 else 0)) := by
+  obtain ⟨lx, ly, dx, dy, a, b, c, e⟩ := OSGBReverse.dec_digits s d h
+  exact OSGBReverse.reverseVal_exact d hp lx ly dx dy (by rw [abs_le]; constructor <;> omega) (by rw [abs_le]; constructor <;> omega) cp
+
+/-- **re-encode law through the floating values, down to 1 m**: for every accepted string of precision `≤ 5`,
+`GridReference(ReadGridReference(s, centerp = true), prec)` is the string upper-cased with white space removed — the
+binary64 centre is computed exactly, passes the range check, and its tile index, offset and digits are exact -/
+theorem osgb_reencode_le5 (s : List ℕ) (d : OSGB.Dec) (h : OSGB.decodeInt s = .ok d) (hp : d.prec ≤ 5) :
+    (OSGB.gridReference (OSGB.reverseVal d true).1 (OSGB.reverseVal d true).2 d.prec).map toBytes =
+      .ok ((s.filter (fun c => !OSGB.isSpace c)).map upper) := by
+  obtain ⟨lx, ly, dx, dy, a, b, c, e⟩ := OSGBReverse.dec_digits s d h
+  obtain ⟨vx, vy⟩ := osgb_reverse_exact_le5 s d h hp true
+  simp only [if_true] at vx vy
+  have hDx := OSGBReverse.digitsVal_lt d.xd dx
+  have hDy := OSGBReverse.digitsVal_lt d.yd dy
+  rw [lx] at hDx
+  rw [ly] at hDy
+  have sx := OSGBReverse.scaleCoord_centre d.xh (digitsVal d.xd) d.prec hp (by rw [abs_le]; constructor <;> omega) hDx vx
+  have sy := OSGBReverse.scaleCoord_centre d.yh (digitsVal d.yd) d.prec hp (by rw [abs_le]; constructor <;> omega) hDy vy
+  -- the range check
+  have k5 : d.prec + (5 - d.prec) = 5 := by omega
+  have hpk : (10:ℚ) ^ d.prec * (10:ℚ) ^ (5 - d.prec) = 100000 := by rw [← pow_add, k5]; norm_num
+  have hkpos : (0:ℚ) < (10:ℚ) ^ (5 - d.prec) := by positivity
+  have rng : ∀ (hh : ℤ) (D : ℕ), D < 10 ^ d.prec →
+      (100000:ℚ) * hh ≤ ((100000 * hh + D * 10 ^ (5 - d.prec) : ℤ) : ℚ) + (10:ℚ) ^ (5 - d.prec) / 2 ∧
+      ((100000 * hh + D * 10 ^ (5 - d.prec) : ℤ) : ℚ) + (10:ℚ) ^ (5 - d.prec) / 2 < 100000 * (hh + 1) := by
+    intro hh D hD
+    have hDq : (D:ℚ) + 1 ≤ (10:ℚ) ^ d.prec := by exact_mod_cast hD
+    have hD0 : (0:ℚ) ≤ (D:ℚ) := by positivity
+    have h1 : ((D:ℚ) + 1) * (10:ℚ) ^ (5 - d.prec) ≤ 100000 := by
+      rw [← hpk]; exact mul_le_mul_of_nonneg_right hDq hkpos.le
+    push_cast
+    constructor <;> nlinarith
+  have hc : OSGB.checkCoords (OSGB.reverseVal d true).1 (OSGB.reverseVal d true).2 = .ok () := by
+    rw [osgb_checkCoords_iff]
+    obtain ⟨x1, x2⟩ := rng d.xh _ hDx
+    obtain ⟨y1, y2⟩ := rng d.yh _ hDy
+    have aq : (-10:ℚ) ≤ (d.xh:ℚ) := by exact_mod_cast a
+    have bq : (d.xh:ℚ) + 1 ≤ 15 := by exact_mod_cast (by omega : d.xh + 1 ≤ 15)
+    have cq : (-5:ℚ) ≤ (d.yh:ℚ) := by exact_mod_cast c
+    have eq' : (d.yh:ℚ) + 1 ≤ 20 := by exact_mod_cast (by omega : d.yh + 1 ≤ 20)
+    push_cast at x1 x2 y1 y2
+    refine ⟨Or.inr ⟨vx.1, ?_, ?_⟩, Or.inr ⟨vy.1, ?_, ?_⟩⟩
+    · rw [vx.2]; norm_num [osgb_minx]; linarith
+    · rw [vx.2]; norm_num [osgb_maxx]; linarith
+    · rw [vy.2]; norm_num [osgb_miny]; linarith
+    · rw [vy.2]; norm_num [osgb_maxy]; linarith
+  rw [osgb_gridReference_eq _ _ _ hc]
+  have hpr : (0:ℤ) ≤ (d.prec:ℤ) ∧ (d.prec:ℤ) ≤ 11 := by omega
+  have hnan : ((OSGB.reverseVal d true).1.isNaN || (OSGB.reverseVal d true).2.isNaN) = false := by
+    obtain ⟨s1, m1, e1, r1, _⟩ := vx.fin
+    obtain ⟨s2, m2, e2, r2, _⟩ := vy.fin
+    rw [r1, r2]; rfl
+  simp only [hpr, not_true_eq_false, if_false, hnan, Bool.false_eq_true, Int.toNat_natCast, and_self]
+  rw [sx, sy]
+  have h0 : d.prec - 5 = 0 := by omega
+  rw [encodeInt_eq_cell _ _ _ (by simp [h0]) (by simp [h0])]
+  simp only [cellIndex, h0, pow_zero, Nat.mul_one, Int.toNat_natCast, Int.toNat_zero, Nat.add_zero, Except.map]
+  rw [osgb_reencode s d h]
+
+/-! #### the constants of the OSGB36 projection as written in `OSGB.hpp` (re-extracted on every run: `Gen.OSGBC`) -/
+
+/-- **defining constants** (Ordnance Survey, *A guide to coordinate systems in Great Britain*): Airy 1830 semi-axes
+`a = 20923713 ft`, `b = 20853810 ft` with `log₁₀(m/ft) = 0.48401603 − 1`; `log₁₀ F₀ = 9.9998268 − 10`; true origin 49°N 2°W;
+false origin `E₀ = 400 000 m`, `N₀ = −100 000 m` -/
+theorem osgb_constants_documented :
+    Gen.OSGBC.a_base = 10 ∧ Gen.OSGBC.a_lognum = 48401603 - 100000000 ∧ Gen.OSGBC.a_logden = 100000000 ∧
+    Gen.OSGBC.a_mul = 20923713 ∧ Gen.OSGBC.f_num = 20923713 - 20853810 ∧ Gen.OSGBC.f_den = 20923713 ∧
+    Gen.OSGBC.k0_base = 10 ∧ Gen.OSGBC.k0_lognum = 9998268 - 10000000 ∧ Gen.OSGBC.k0_logden = 10000000 ∧ Gen.OSGBC.k0_mul = 1 ∧
+    Gen.OSGBC.lat0 = 49 ∧ Gen.OSGBC.lon0 = -2 ∧ Gen.OSGBC.falseNorthing = -100000 ∧ Gen.OSGBC.falseEasting = 400000 := by
+  decide
+
+/-- the flattening is `7767/2324857`, i.e. `1/f = 299.32496459…` (the header's comment says 1/299.32496459) -/
+theorem osgb_flattening_value :
+    (Gen.OSGBC.f_num : ℚ) / Gen.OSGBC.f_den = 7767 / 2324857 ∧
+    (29932496459 : ℚ) / 100000000 < (Gen.OSGBC.f_den : ℚ) / Gen.OSGBC.f_num ∧
+    (Gen.OSGBC.f_den : ℚ) / Gen.OSGBC.f_num < 29932496460 / 100000000 := by
+  have h1 : (Gen.OSGBC.f_num : ℚ) = 69903 := by norm_num [Gen.OSGBC.f_num]
+  have h2 : (Gen.OSGBC.f_den : ℚ) = 20923713 := by norm_num [Gen.OSGBC.f_den]
+  rw [h1, h2]
+  norm_num
+
+/-- the false origin is a corner of the 100 km grid: the letters of `GridReference` and the projection agree on the
+origin of the coordinates (`FalseEasting = 4 tiles`, `FalseNorthing = −1 tile`) -/
+theorem osgb_false_origin_on_grid :
+    Gen.OSGBC.falseEasting = 4 * osgb_tile ∧ Gen.OSGBC.falseNorthing = -1 * osgb_tile := by decide
+
+/-- the wrapper: `Reverse` undoes the shifts of `Forward` exactly whenever the two additions are exact (they are
+binary64 additions of the false easting / the north offset) -/
+theorem osgb_wrap_shape (fe no tx ty : F64) :
+    OSGB.forwardWrap fe no tx ty = (tx + fe, ty + no) ∧ OSGB.reverseWrap fe no tx ty = (tx - fe, ty - no) ∧
+    OSGB.northOffset fe ty = fe - ty := ⟨rfl, rfl, rfl⟩
+
+/-! non-vacuity of the hypotheses of the OSGB theorems -/
+/-- `x = 651409.903` (the OS worked example): `m < 2^53`, `e = −33`, tile 6, offset exact -/
+example : (5595568465256579 : ℕ) < 2 ^ 53 ∧ (-1074 : ℤ) ≤ -33 ∧ (-33 : ℤ) ≤ 0 := by decide
+example : OSGB.scaleCoord (F64.fin false 5595568465256579 (-33)) 3 = ⟨6, 514, 0⟩ := by decide +kernel
+example : OSGB.scaleCoord (F64.fin false 5595568465256579 (-33)) 8 = ⟨6, 51409, 903⟩ := by decide +kernel
+/-- the carry of the repaired code (F74): `x = −2^(−40)` is coded into tile 0, digits 0; `x = −2^(−36)` is regular -/
+example : OSGB.scaleCoord (F64.fin true 1 (-40)) 5 = ⟨0, 0, 0⟩ := by decide +kernel
+example : OSGB.scaleCoord (F64.fin true 1 (-36)) 5 = ⟨-1, 99999, 0⟩ := by decide +kernel
+/-- class U: `x = −2^(−1074)` -/
+example : OSGB.scaleCoord (F64.fin true 1 (-1074)) 5 = ⟨0, 0, 0⟩ := by decide +kernel
+/-- class F2 in the digits beyond 1 m: `x = 0.3` (the double, `< 3/10`), `p = 6`: digit 3 -/
+example : OSGB.scaleCoord (F64.fin false 5404319552844595 (-54)) 6 = ⟨0, 0, 3⟩ := by decide +kernel
+example : (match OSGB.decodeInt (toBytes "tg 51409 13177".toList) with
+    | .ok d => decide (d = ⟨6, 3, [5, 1, 4, 0, 9], [1, 3, 1, 7, 7], 5⟩) | .error _ => false) = true := by decide +kernel
+example : String.ofList (OSGB.encodeInt ⟨6, 51409, 903⟩ ⟨3, 13177, 270⟩ 8) = "TG5140990313177270" := by decide +kernel
+example : OSGB.checkCoords (F64.ofInt 651409) (F64.ofInt 313177) = .ok () := by decide +kernel
+
+end OSGB
 
 /-! ### non-vacuity: concrete codes -/
 example : String.ofList (GARS.encodeInt (4320 / 2 + 7) (2160 / 2 + 5) 2) = "362HN12" := by decide
